@@ -1,9 +1,9 @@
-\* thorough: memory and threads together (a request carrying both is refused/applied atomically), 4 groups, 2 roots
+\* thorough: memory and threads together (a request carrying both is refused/applied atomically), 4 groups
 SPECIFICATION Spec
 CONSTANTS
   MaxGroups = 4
   MaxDepth = 3
-  MaxRoots = 2
+  MaxRoots = 1
   NCPU = 3
   MemVals = {1, 2}
   ThrVals = {1, 2}
